@@ -397,7 +397,7 @@ func unmarshal(m *Message, f reflect.Value, avps []*AVP) {
 	case reflect.Slice:
 		// Copy byte arrays.
 		dv := reflect.ValueOf(avps[0].Data)
-		if dv.Type().ConvertibleTo(fieldType) {
+		if dv.CanConvert(fieldType) {
 			f.Set(dv.Convert(fieldType))
 			break
 		}
@@ -449,8 +449,10 @@ func unmarshal(m *Message, f reflect.Value, avps []*AVP) {
 
 	default:
 		// Test for AVP.Data (e.g. format.UTF8String, string)
+		// CanConvert, not ConvertibleTo: a slice converts to an array
+		// only when it is long enough, and its length is the peer's.
 		dv := reflect.ValueOf(avps[0].Data)
-		if dv.Type().ConvertibleTo(fieldType) {
+		if dv.CanConvert(fieldType) {
 			f.Set(dv.Convert(fieldType))
 		}
 	}
